@@ -10,17 +10,29 @@ RULE = ("clique covers as lists of vertex-id lists: exhaustive over all ordered 
         "cliques drawn from the non-empty subsets of a 4-vertex universe, 0- and 1-based (gapped ones form the malformed "
         "stream), then seeded random covers on 2..9 vertices with size menus incl. non-adjacent sizes ({2,4},{2,5},{1,3,6}), "
         "clique sizes up to 16 ({2,8},{3,9},{2,10,12},...), overlapping cliques, both bases, both construction paths; in a "
-        "quarter of the random cases a SECOND loader object is constructed and kept alive before the first is read; malformed: id gaps, ids starting at >= 2, negative ids, "
+        "quarter of the random cases a SECOND loader object is constructed and kept alive before the first is read; HUB covers: "
+        "one or two vertices in 100..600 cliques of one size (127/128/129, 255/256/257, 511/512/513, ...; stars of 2-cliques "
+        "and fans of 3-/4-cliques over few leaves, a second size through the same hub, randomly relabelled), and 1 (quick) / 3 "
+        "(thorough) covers with a vertex in 65535..70000 three-cliques; SAMPLING STEP on a third of the valid random covers, "
+        "a fifth of the exhaustive ones and half of the hub covers: sample_jds_from_jdd(N), N in 1..9, scripted random.choices "
+        "indices and random.randrange answers, in 40% of them concentrated on ONE row (the same vertex picked repeatedly, "
+        "certain for N = 1), observed as in C05 and judged by the verified C05 checker against the loader's reported jdd and "
+        "motif sizes; malformed: id gaps, ids starting at >= 2, negative ids, "
         "empty cover, empty clique, repeated vertex. Compared: motif_sizes, the jdd as a key->value map (floats within 1e-9 "
-        "of the model's exact rational), exception class. Non-trivial = valid cover (contiguous ids from 0/1) with >= 2 "
-        "distinct clique sizes or a missing size below the largest; distinct by (cover, path)")
+        "of the model's exact rational), exception class, random calls while constructing (none expected; answered by a "
+        "lenient oracle, not fatal), the sample (choices question, randrange ranges and answers, returned sequence, tuple "
+        "type tags, jdd untouched by sampling) against Model/Sample.v. Non-trivial = valid cover (contiguous ids from 0/1) "
+        "with >= 2 distinct clique sizes or a missing size below the largest; distinct by (cover, path)")
 EXHAUSTIVE = {"quick": True, "thorough": True}
 EXPLANATION = ("general theorems (all covers) in Props/C08.v; the correspondence is exhaustive over small covers and random "
                "beyond; the verified checker c08_check (sizes = ascending set of occurring clique sizes; jdd = empirical law "
-               "of the per-vertex count tuples) judges every implementation output on valid covers")
+               "of the per-vertex count tuples) judges every implementation output on valid covers; where a case has a sampling "
+               "step the verified checker c05_check (Props/C05.v: N rows, nothing removed, minimal stubs, every column total "
+               "divisible by the reported clique size) judges the drawn sample as well")
 ASSUMPTIONS = ["Python's sorted/set/min/len, collections.Counter and dict insertion order behave as modelled",
                "float division count/n is within 1e-9 (relative) of the exact rational"]
-TRUSTED = ["Python builtins sorted, set, min, max(key=len), zip, any, collections.Counter: modelled, not verified"]
+TRUSTED = ["Python builtins sorted, set, min, max(key=len), zip, any, collections.Counter: modelled, not verified",
+           "sampling step: CPython random.choices / randrange as in C05 (selection rule modelled there, uniformity trusted)"]
 TECHNIQUE = ("Coq proof (literal model of the loader proved to satisfy the counting specification for all valid covers; "
              "verified checker) + model/implementation correspondence")
 LEVEL_TEXT = (
@@ -92,12 +104,90 @@ def _random_cover(rng):
     return cover
 
 
+# counts at which a narrow integer type wraps or changes width (int8 / uint8 / int16-ish tables, one-byte counters)
+HUB_DEGREES = [100, 127, 128, 129, 200, 255, 256, 257, 258, 300, 383, 384, 511, 512, 513, 600]
+
+
+def _hub_cover(rng, huge=False):
+    """one (sometimes two) vertices lying in 100..600 cover cliques of ONE size: a star of 2-cliques (as many leaves as
+    cliques) or a fan of 3-/4-cliques through the hub over few leaves (all (s-1)-subsets of ~25 leaves), optionally a second
+    batch of another size through the same hub, a second hub, and a few ordinary cliques; labels are a random bijection"""
+    deg = rng.choice(HUB_DEGREES) if rng.random() < 0.8 else rng.randint(100, 600)
+    if huge:
+        deg = rng.choice([65535, 65536, 65537, 70000])
+    cover = []
+    nxt = [1]
+
+    def fresh(k):
+        out = list(range(nxt[0], nxt[0] + k))
+        nxt[0] += k
+        return out
+
+    def batch(hub, d, s):
+        if s == 2:
+            return [[hub, v] for v in fresh(d)]
+        m = s
+        while _ncomb(m, s - 1) < d:
+            m += 1
+        leaves = fresh(m)
+        subs = list(itertools.islice(itertools.combinations(leaves, s - 1), 0, None))
+        return [[hub] + list(c) for c in rng.sample(subs, d)]
+
+    s1 = 3 if huge else rng.choice([2, 2, 3, 3, 4])
+    cover += batch(0, deg, s1)
+    if rng.random() < 0.5:          # another size through the same hub (below or above the threshold)
+        s2 = rng.choice([s for s in (2, 3, 4, 5) if s != s1])
+        cover += batch(0, rng.choice([1, 3, 40, 256, 260]) if not huge else 3, s2)
+    if rng.random() < 0.3 and not huge:   # a second hub, other degree
+        h2 = fresh(1)[0]
+        cover += batch(h2, rng.choice(HUB_DEGREES), rng.choice([2, 3]))
+    n = nxt[0]
+    for _ in range(rng.randint(0, 3)):
+        s = rng.choice([1, 2, 3, 5, 6, 9])
+        if s <= n:
+            cover.append(rng.sample(range(n), s))
+    perm = list(range(n))
+    rng.shuffle(perm)
+    cover = [[perm[v] for v in c] for c in cover]
+    for c in cover:
+        if rng.random() < 0.5:
+            rng.shuffle(c)
+    if rng.random() < 0.5:
+        rng.shuffle(cover)
+    return cover
+
+
+def _ncomb(m, k):
+    out = 1
+    for i in range(k):
+        out = out * (m - i) // (i + 1)
+    return out
+
+
+def _sample_step(rng, cover):
+    """the last sentence of C08: draw N joint degrees from the cover-derived distribution; scripted random.choices answer
+    (indices, reduced modulo the number of keys) and random.randrange answers for the hand-shaking fix-up, in a good share
+    of the cases REPEATING one vertex (N small / answers concentrated on one row)"""
+    sizes = sorted({len(c) for c in cover})
+    N = rng.choice([1, 1, 2, 2, 3, 4, 6, 9])
+    rs = [rng.randrange(N) for _ in range(sum(sizes) + 1)]
+    if rng.random() < 0.4:
+        j = rng.randrange(N)
+        rs = [j if rng.random() < 0.75 else r for r in rs]
+    return {"N": N, "draws": [rng.randrange(1000) for _ in range(N)], "rs": rs}
+
+
 def generate(rng, tier):
     maxc = 2 if tier == "quick" else 3
+    j = 0
     for k in range(1, maxc + 1):
         for cs in itertools.product(SUBSETS4, repeat=k):
             for base in (0, 1):
-                yield {"cover": [[v + base for v in c] for c in cs], "path": (k + base) % 2}
+                j += 1
+                c = {"cover": [[v + base for v in c] for c in cs], "path": (k + base) % 2}
+                if j % 5 == 0 and is_valid(c["cover"]):
+                    c["sample"] = _sample_step(rng, c["cover"])
+                yield c
     nrand = 700 if tier == "quick" else 6000
     for i in range(nrand):
         cov = _random_cover(rng)
@@ -106,7 +196,19 @@ def generate(rng, tier):
         if i % 4 == 0:
             # a second loader object is built (and stays alive) before the first one is read
             c["other"] = _compress(_random_cover(rng), rng.randint(0, 1))
+        if i % 3 == 0:
+            c["sample"] = _sample_step(rng, c["cover"])
         yield c
+    # hub covers: a vertex in hundreds of cliques of one size
+    for i in range(24 if tier == "quick" else 150):
+        cov = _hub_cover(rng)
+        c = {"cover": _compress(cov, rng.randint(0, 1)), "path": rng.randint(0, 1)}
+        if i % 2 == 0:
+            c["sample"] = _sample_step(rng, c["cover"])
+        yield c
+    # ... and past the 16-bit threshold: a vertex in 65535..70000 three-cliques over ~375 leaves (about 6 s of driver time each)
+    for i in range(1 if tier == "quick" else 3):
+        yield {"cover": _compress(_hub_cover(rng, huge=True), i % 2), "path": i % 2}
     # malformed stream
     nbad = 200 if tier == "quick" else 1500
     for _ in range(nbad):
@@ -130,38 +232,113 @@ def generate(rng, tier):
         yield {"cover": cov, "path": rng.randint(0, 1)}
 
 
+class _Cap:
+    """unscripted randrange calls (more stubs than the minimal patch) are answered 0, up to a bound"""
+
+    def __init__(self):
+        self.n = 0
+
+    def __call__(self, kind, args):
+        self.n += 1
+        if kind != "randrange" or self.n > 300:
+            raise oracles.OracleProtocol(f"unscripted {kind}")
+        return 0
+
+
+class _SampleScript(oracles.Script):
+    """random.choices answers are indices reduced modulo the population (the number of keys is not known when the case is
+    generated); a call asking for another k than scripted is answered anyway (padding / truncating)"""
+
+    def choices(self, population, weights=None, *, cum_weights=None, k=1):
+        population = list(population)
+        idxs = list(self.take("choices", (population, weights, k)))
+        idxs = [i % max(1, len(population)) for i in (idxs + [0] * k)[:k]]
+        self.log.append(("choices", population, None if weights is None else list(weights), k, idxs))
+        return [population[i] for i in idxs]
+
+
+def _sample(jd, st):
+    """one sample_jds_from_jdd(N) call on the cover loader, observed as C05 observes it"""
+    script = _SampleScript([("choices", list(st["draws"]))] + [("randrange", r) for r in st["rs"]], default=_Cap())
+    try:
+        with oracles.scripted(script):
+            out = jd.sample_jds_from_jdd(st["N"])
+    except Exception as e:  # noqa: BLE001
+        return {"exc": type(e).__name__}
+    calls = [e for e in script.log if e[0] == "choices"]
+    obs = {"exc": None, "n_choices_calls": len(calls)}
+    if calls:
+        _, pop, wts, k, idxs = calls[0]
+        obs["call"] = [[[int(x) for x in p_] for p_ in pop], [core.q_tree(w) for w in (wts or [])], int(k), list(idxs)]
+    else:
+        obs["call"] = [[], [], 0, []]
+    obs["rlog"] = [[int(e[1]), int(e[2]), int(e[3])] for e in script.log if e[0] == "randrange"]
+    obs["out_type"] = type(out).__name__
+    obs["out"] = [[int(x) for x in e] for e in out]
+    obs["tags"] = [1 if (type(e) is tuple and all(type(x) is int for x in e)) else 0 for e in out]
+    return obs
+
+
 def impl(case):
     from gcmpy.joint_degree.joint_degree_loaders.joint_degree_cover import JointDegreeCover
     from gcmpy.joint_degree.joint_degree_distribution import JointDegreeDistribution
     from gcmpy.names.joint_degree_names import JointDegreeNames
     cover = copy.deepcopy(case["cover"])
-    with oracles.forbid_random():
+    # the loader is deterministic: any random call while constructing is answered (seeded fallback) and recorded
+    script = oracles.LenientScript([], seed=len(case["cover"]))
+    with oracles.lenient_scripted(script):
         if case.get("path", 0) == 0:
             jd = JointDegreeCover({JointDegreeNames.COVER: cover})
         else:
             jd = JointDegreeDistribution.load_joint_degree(
                 {JointDegreeNames.JOINT_DEGREE_TYPE: "cover", JointDegreeNames.COVER: cover})
-    other = None
-    if case.get("other"):
-        with oracles.forbid_random():
+        other = None
+        if case.get("other"):
             other = JointDegreeCover({JointDegreeNames.COVER: copy.deepcopy(case["other"])})
     jdd = []
     for k, v in jd.jdd.items():
         tag = 1 if (isinstance(k, tuple) and all(type(x) is int for x in k)) else 0
         jdd.append([[int(x) for x in k], core.q_tree(v), tag])
-    return {"sizes": [int(s) for s in jd.motif_sizes], "jdd": jdd, "cover_unchanged": cover == case["cover"],
-            "n_sizes_type": type(jd.motif_sizes).__name__}
+    obs = {"sizes": [int(s) for s in jd.motif_sizes], "jdd": jdd, "cover_unchanged": cover == case["cover"],
+           "n_sizes_type": type(jd.motif_sizes).__name__, "random_calls_constructing": len(script.unexpected)}
+    if case.get("sample") and is_valid(case["cover"]):
+        obs["sample"] = _sample(jd, case["sample"])
+        after = [[[int(x) for x in k], core.q_tree(v)] for k, v in jd.jdd.items()]
+        obs["jdd_unchanged_by_sampling"] = after == [[k, q] for k, q, _ in jdd] and \
+            [int(s) for s in jd.motif_sizes] == obs["sizes"]
+    del other
+    return obs
+
+
+def _has_sample(io):
+    return isinstance(io, dict) and io.get("sample") is not None and io["sample"]["exc"] is None
+
+
+def _c05_args(case, io):
+    keys = [k for k, _, _ in io["jdd"]]
+    wts = [q for _, q, _ in io["jdd"]]
+    return keys, wts, io["sizes"], case["sample"]["N"]
 
 
 def model_calls(case, impl_obs):
-    return [("c08_run", case["cover"])]
+    calls = [("c08_run", case["cover"])]
+    if _has_sample(impl_obs):
+        # the sampling step of the model (Model/Sample.v) on the distribution and sizes the loader reports (these are tied
+        # to the cover by the first call), with the oracle answers the implementation received
+        keys, wts, sizes, N = _c05_args(case, impl_obs)
+        calls.append(("c05_run", [keys, wts, sizes, N, impl_obs["sample"]["call"][3], case["sample"]["rs"]]))
+    return calls
 
 
 def model_obs(case, raws):
     r = raws[0]
     if r[0] == -1:
         return ["!exc", ERR.get(r[1], str(r[1]))]
-    return {"sizes": r[1], "rows": r[2], "jdd": [[k, q] for k, q in r[3]]}
+    mo = {"sizes": r[1], "rows": r[2], "jdd": [[k, q] for k, q in r[3]]}
+    if len(raws) > 1:
+        r2 = raws[1]
+        mo["sample"] = ["!exc", ERR.get(r2[1], str(r2[1]))] if r2[0] == -1 else {"call": r2[1], "out": r2[3], "log": r2[4]}
+    return mo
 
 
 def compare(case, io, mo):
@@ -182,13 +359,51 @@ def compare(case, io, mo):
         return "a jdd key is not a tuple of ints"
     if not io["cover_unchanged"]:
         return "the caller's cover was mutated"
+    if io["random_calls_constructing"]:
+        return f"{io['random_calls_constructing']} random calls while constructing the (deterministic) cover loader"
+    if "sample" in io:
+        so = io["sample"]
+        if so["exc"] is not None:
+            return f"sampling from the cover-derived distribution raised {so['exc']}"
+        sm = mo.get("sample")
+        if sm is None or core.is_exc(sm):
+            return f"sampling step: impl returned, model {sm}"
+        N = case["sample"]["N"]
+        if so["n_choices_calls"] != 1:
+            return f"sampling step: {so['n_choices_calls']} choices calls (expected 1)"
+        keys, wts, _, _ = _c05_args(case, io)
+        pop, w, k, _ = so["call"]
+        if pop != keys or [core.tree_q(x) for x in w] != [core.tree_q(x) for x in wts] or k != N:
+            return f"sampling step: choices asked ({pop},{w},{k}), expected the jdd's keys/values and k={N}"
+        if so["out"] != sm["out"]:
+            return f"sampling step: returned sequence impl {so['out']} model {sm['out']}"
+        if [x[2] for x in so["rlog"]] != [row for _, row in sm["log"]]:
+            return f"sampling step: randrange answers used: impl {so['rlog']} model log {sm['log']}"
+        if any(x[0] != 0 or x[1] != N for x in so["rlog"]):
+            return f"sampling step: randrange asked for a range other than (0,{N}): {so['rlog']}"
+        if not all(so["tags"]) or so["out_type"] != "list":
+            return f"sampling step: type tags {so['out_type']} of {so['tags']}"
+        if not io["jdd_unchanged_by_sampling"]:
+            return "sampling modified the loader's jdd / motif sizes"
     return None
+
+
+C05_CLAUSES = ["valid-shape (one column per reported size, sizes positive)", "choices-call (the jdd's keys, values, k=N)",
+               "rows(length N, non-negative, never below the draw)",
+               "columns(added = (s - S mod s) mod s, total divisible by the reported clique size)",
+               "randrange-log(range (0,N), per-row gain = number of answers)"]
 
 
 def check_calls(case, io):
     if core.is_exc(io) or not is_valid(case["cover"]):
         return []
-    return [("c08_check", [case["cover"], io["sizes"], [[k, q] for k, q, _ in io["jdd"]]])]
+    calls = [("c08_check", [case["cover"], io["sizes"], [[k, q] for k, q, _ in io["jdd"]]])]
+    if _has_sample(io):
+        # the verified C05 checker judges the sample against the REPORTED distribution and the REPORTED motif sizes
+        keys, wts, sizes, N = _c05_args(case, io)
+        so = io["sample"]
+        calls.append(("c05_check", [keys, wts, sizes, N, so["call"], so["rlog"], so["out"]]))
+    return calls
 
 
 def check_verdict(case, io, raws):
@@ -200,6 +415,21 @@ def check_verdict(case, io, raws):
         return "a jdd key is not a tuple of ints"
     if not raws or raws[0] != 1:
         return "c08_check (sizes = occurring clique sizes ascending; jdd = empirical law of per-vertex counts) rejected"
+    if "sample" in io:
+        so = io["sample"]
+        if so["exc"] is not None:
+            if so["exc"] in ("OracleProtocol", "Timeout"):
+                return None      # another random protocol: a correspondence matter (compare / search)
+            return f"sampling {case['sample']['N']} joint degrees from the cover-derived distribution raised {so['exc']}"
+        if len(raws) < 2 or not isinstance(raws[1], list):
+            return "sampling step: checker produced no verdict"
+        v = raws[1]
+        if v[0] != 1:
+            bad = [C05_CLAUSES[i] for i, b in enumerate(v[1:]) if b != 1]
+            return ("sample from the cover-derived distribution is not realisable with the reported clique sizes: c05_check "
+                    "rejected: " + "; ".join(bad))
+        if not all(so["tags"]):
+            return f"sampling step: entry {so['tags'].index(0)} of the sample is not a tuple of ints"
     return None
 
 
@@ -214,8 +444,40 @@ def nontrivial_key(case, io):
 
 
 def shrink(case):
+    if case.get("sample"):
+        yield {k: v for k, v in case.items() if k != "sample"}
+        st = case["sample"]
+        if st["N"] > 1:
+            N = st["N"] - 1
+            yield dict(case, sample={"N": N, "draws": st["draws"][:N], "rs": [min(r, N - 1) for r in st["rs"]]})
+        if any(st["rs"]):
+            yield dict(case, sample=dict(st, rs=[0] * len(st["rs"])))
+        if any(st["draws"]):
+            yield dict(case, sample=dict(st, draws=[0] * len(st["draws"])))
+    for c in _shrink_cover(case):
+        if case.get("sample"):
+            if not is_valid(c["cover"]):
+                continue
+            st = case["sample"]
+            need = sum({len(x) for x in c["cover"]}) + 1
+            c["sample"] = dict(st, rs=(st["rs"] + [0] * need)[:max(need, len(st["rs"]))])
+        yield c
+
+
+def _shrink_cover(case):
     cov = case["cover"]
     extra = {"other": case["other"]} if case.get("other") else {}
+    if len(cov) > 3000:
+        return          # a 65536-clique hub: every evaluation costs seconds, report it as it is
+    if len(cov) > 40:   # hub covers: drop blocks of cliques first (ids re-compressed)
+        n = len(cov)
+        for parts in (2, 4, 8, 16):
+            step = (n + parts - 1) // parts
+            for a in range(0, n, step):
+                new = cov[:a] + cov[a + step:]
+                if new and is_valid(cov):
+                    new = _compress(new, case_base(cov))
+                yield dict({"cover": new, "path": case.get("path", 0)}, **extra)
     for i in range(len(cov)):
         yield dict({"cover": cov[:i] + cov[i + 1:], "path": case.get("path", 0)}, **extra)
     for i, c in enumerate(cov):
@@ -248,7 +510,8 @@ def describe(case, io):
 
 
 def histogram(cases):
-    h = {"valid": 0, "malformed": 0, "one_based": 0, "nonadjacent_sizes": 0, "dispatcher_path": 0, "max_cliques": 0}
+    h = {"valid": 0, "malformed": 0, "one_based": 0, "nonadjacent_sizes": 0, "dispatcher_path": 0, "max_cliques": 0,
+         "sampling_step": 0, "max_cliques_of_one_size_through_a_vertex": 0, "vertex_in_>=256_cliques_of_one_size": 0}
     for c in cases:
         cov = c["cover"]
         if is_valid(cov):
@@ -262,4 +525,10 @@ def histogram(cases):
             h["malformed"] += 1
         h["dispatcher_path"] += c.get("path", 0)
         h["max_cliques"] = max(h["max_cliques"], len(cov))
+        h["sampling_step"] += 1 if c.get("sample") else 0
+        if len(cov) >= 100:
+            import collections
+            m = max(collections.Counter((v, len(x)) for x in cov for v in x).values())
+            h["max_cliques_of_one_size_through_a_vertex"] = max(h["max_cliques_of_one_size_through_a_vertex"], m)
+            h["vertex_in_>=256_cliques_of_one_size"] += 1 if m >= 256 else 0
     return h
